@@ -228,6 +228,34 @@ pub fn c18() -> i32 {
             }
         }
     }
+    // a spectator is disconnected explicitly (disconnect_player with its handle), or dies, while
+    // the players go on: nothing may keep growing for it
+    for (tp, w) in [("1+1", 8usize), ("2+1", 2), ("1+1", 0)] {
+        for explicit in [false, true] {
+            for drain in [true, false] {
+                let mut s = base_scn("c18-spectator-lost", tp, w, 0, false, Pred::RepeatLast, Program::Changing, 1);
+                for p in s.peers.iter_mut() {
+                    p.notify_ms = 100;
+                    p.timeout_ms = 300;
+                    p.drain = drain;
+                }
+                let a = s.peers[0].addr;
+                s.specs.push(SpecSpec::new(20, a));
+                let spec_handle = s.num_players;
+                let spec_node = s.peers.len();
+                if explicit {
+                    s.script.push(ScriptItem { round: 50, node: 0, action: Action::Disconnect { handle: spec_handle } });
+                } else {
+                    s.script.push(ScriptItem { round: 50, node: spec_node, action: Action::Die });
+                }
+                s.name = format!("{} spectator lost explicit={explicit} drain={drain}", s.name);
+                s.horizon = rounds;
+                s.probe = 0;
+                s.checks = CK_C02 | CK_C04;
+                scns.push(s);
+            }
+        }
+    }
     let n = scns.len();
     let cfg = ExploreCfg { k: Some(0), track_sizes: true, wall: Duration::from_secs(if t { 3000 } else { 50 }), ..Default::default() };
     let out = explore(&scns, &cfg, &judge);
